@@ -212,15 +212,21 @@ type c04sys struct {
 // Every observation re-reads the whole store and compares it with the
 // reference, so a wrong pool content could not go unnoticed.
 type c04pooled struct {
-	st      *leveldbstore.LevelDBStore
-	content [c04MaxK]uint8
-	writes  int
+	st        *leveldbstore.LevelDBStore
+	content   [c04MaxK]uint8
+	writes    int // writes this store has received (conversions and overlay commits)
+	compacted int // value of writes at the last compaction
 }
 
+// shadowed versions of earlier writes make every store iterator slower; after
+// this many writes the store is compacted (VerifCompact seam = goleveldb CompactRange).
+const c04compactEvery = 128
+
 type c04pool struct {
-	free []*c04pooled
-	made int
-	max  int
+	free        []*c04pooled
+	made        int
+	max         int
+	compactions int
 }
 
 func (p *c04pool) acquire(want [c04MaxK]uint8) *c04pooled {
@@ -269,13 +275,21 @@ func (p *c04pool) convert(e *c04pooled, want [c04MaxK]uint8) {
 
 // release returns a store whose content is known (the reference state's store
 // layer, which the last observation confirmed); a store of unknown content is dropped.
-func (p *c04pool) release(e *c04pooled, content [c04MaxK]uint8, ok bool) {
+func (p *c04pool) release(e *c04pooled, content [c04MaxK]uint8, writes int, ok bool) {
 	if !ok {
 		e.st.Close()
 		p.made--
 		return
 	}
 	e.content = content
+	e.writes += writes
+	if e.writes-e.compacted >= c04compactEvery {
+		if err := e.st.VerifCompact(); err != nil {
+			panic("compaction of a pooled store failed: " + err.Error())
+		}
+		e.compacted = e.writes
+		p.compactions++
+	}
 	p.free = append(p.free, e)
 }
 
@@ -424,9 +438,8 @@ func c04cmpGet(level, shown string, got []byte, err error, want string, present 
 	return "", ""
 }
 
-var c04cachePrefixes = []string{"", "a", "ab", "abc", "a\xff", "b", "c", "\xff"}
-var c04rawPrefixes = []string{"", string([]byte{c04ST}), c04raw("a"), c04raw("ab"), c04raw("a\xff"), c04raw("b"),
-	string([]byte{c04ST - 1}), string([]byte{c04ST + 1})}
+var c04cachePrefixes = []string{"", "a", "ab", "abc", "a\xff", "b", "c"}
+var c04rawPrefixes = []string{"", string([]byte{c04ST}), c04raw("a"), c04raw("ab"), string([]byte{c04ST - 1}), string([]byte{c04ST + 1})}
 
 // observe performs every read on the real layers and compares it with the
 // reference state; the first difference is returned as (key, detail).
@@ -663,7 +676,23 @@ func c04transition(r *vh.Run, o *c04obs, pool *c04pool, evs []c04event, n c04nod
 	sys, pe := c04build(pool, int(n.mask), nk)
 	ok := false
 	end := n.st.store
-	defer func() { pool.release(pe, end, ok) }()
+	writes := 0
+	countWrites := func(st c04state, ev c04event) {
+		if ev.kind == "ocommit" {
+			for k := 0; k < nk; k++ {
+				if st.over[k] != c04None {
+					writes++
+				}
+			}
+		}
+	}
+	defer func() { pool.release(pe, end, writes, ok) }()
+	ms := c04initial(int(n.mask), nk)
+	for _, h := range nhist {
+		countWrites(ms, evs[h])
+		ms = c04step(ms, evs[h], nk)
+	}
+	countWrites(n.st, e)
 	for _, h := range nhist {
 		if p := sys.apply(evs[h]); p != "" {
 			hn := c04histNames(n.mask, nhist, evs)
@@ -723,7 +752,7 @@ func TestVerif_C04(t *testing.T) {
 		bound += fmt.Sprintf("; second pass: keys=%q depth<=%d from all %d pre-populations", c04keys[:passes[1].nk], passes[1].depth, 1<<uint(passes[1].nk))
 	}
 	r.Bound(bound)
-	r.Assume("goleveldb (memory storage) is trusted as the persistent store; store objects are recycled between replays after being brought to the required content, and every observation re-reads the whole store")
+	r.Assume("goleveldb (memory storage) is trusted as the persistent store; store objects are recycled between replays after being brought to the required content (and compacted every 128 writes through a harness seam), and every observation re-reads the whole store")
 	r.Assume("overlay->store commit is NewBatch+CommitTo+BatchCommit followed by OverlayDB.Reset (a block's overlay is discarded after its commit)")
 	r.Assume("before the event, one event per state (rotating) is preceded by the full set of reads, the others by the point reads through the cache only; after the event all reads are made")
 	pool := &c04pool{max: 4}
@@ -811,8 +840,9 @@ func TestVerif_C04(t *testing.T) {
 		offset += len(nodes)
 	}
 	r.Set("stores_opened", pool.made)
+	r.Set("store_compactions", pool.compactions)
 	r.Eval(r.R.Traces)
-	r.Sample(map[string]interface{}{"history": []string{"prepop:5", "del(\"a\")", "commit", "put(\"ab\",v1)"}, "reads": "cache.Get per key, overlay.Get per raw key, 8 cache prefix iterations, 8 overlay prefix iterations, store iteration, overlay write set"})
+	r.Sample(map[string]interface{}{"history": []string{"prepop:5", "del(\"a\")", "commit", "put(\"ab\",v1)"}, "reads": "cache.Get per key, overlay.Get per raw key, 7 cache prefix iterations, 6 overlay prefix iterations, store iteration, overlay write set"})
 	if r.R.NShards == 1 && done {
 		for _, c := range []string{"cacheiter:equal-key-on-both-sides", "cacheiter:mem-tombstone-over-backend-key", "cacheiter:mem-side-exhausted-first",
 			"cacheiter:backend-side-exhausted-first", "overlayiter:equal-key-on-both-sides", "overlayiter:mem-tombstone-over-backend-key",
